@@ -1462,7 +1462,7 @@ class Emitter:
                 return ['VF_ASSERT(%s, "%s:%s:%s");' % (av[0], tag, self.opts.get('tu', 'tu'), ln)]
             if nm == 'verif_reach':
                 return ['VF_REACH();']
-            if nm == '__cxa_atexit':
+            if nm in ('__cxa_atexit', '__cxa_thread_atexit'):
                 return [(asg + '0;') if asg else ';']
             callee = self.gname(nm)
             if ins.get('castcall'):
@@ -1492,7 +1492,7 @@ class Emitter:
             return ['%s((%s)%s)(%s);' % (asg, ftd, fp, ', '.join(av))]
 
 BUILTIN_DECLS = {'verif_assert_at', 'verif_known_at', 'verif_reach', '_Znwm', '_Znam', '_ZdlPv', '_ZdaPv', '_ZdlPvm', '_ZdaPvm', '_ZnwmRKSt9nothrow_t', '__CPROVER_assume', 'verif_assert',
-                 '__cxa_atexit', 'memcpy', 'memmove', 'memset', 'malloc', 'free', 'round', 'nearbyint', 'sqrt', 'sin', 'cos', 'acos', 'atan2',
+                 '__cxa_atexit', '__cxa_thread_atexit', 'memcpy', 'memmove', 'memset', 'malloc', 'free', 'round', 'nearbyint', 'sqrt', 'sin', 'cos', 'acos', 'atan2',
                  'ceil', 'floor', 'fabs', 'pow', 'log10', 'ilogb', 'rint', 'fmin', 'fmax', 'hypot', 'llabs', 'abs', 'memcmp', 'strlen', 'abort'}
 
 PRELUDE = r'''
